@@ -8,6 +8,7 @@ import (
 	"testing"
 	"time"
 
+	eth2client "github.com/attestantio/go-eth2-client"
 	"github.com/attestantio/go-eth2-client/api"
 	apiv1 "github.com/attestantio/go-eth2-client/api/v1"
 	"github.com/attestantio/go-eth2-client/spec"
@@ -16,7 +17,6 @@ import (
 	"github.com/attestantio/go-eth2-client/spec/capella"
 	"github.com/attestantio/go-eth2-client/spec/deneb"
 	"github.com/attestantio/go-eth2-client/spec/phase0"
-	eth2client "github.com/attestantio/go-eth2-client"
 	"github.com/attestantio/vouch/mock"
 	standardcache "github.com/attestantio/vouch/services/cache/standard"
 	"github.com/attestantio/vouch/services/graffitiprovider/dynamic"
@@ -33,7 +33,7 @@ import (
 // Path 6: cache head events.
 
 type HeadIn struct {
-	Kind      string `json:"kind"` // nodata | fetcherr | block
+	Kind      string `json:"kind"`               // nodata | fetcherr | block
 	AtStart   bool   `json:"at_start,omitempty"` // the block is the one fetched by the constructor
 	Version   uint64 `json:"version,omitempty"`
 	Container bool   `json:"container,omitempty"`
@@ -239,11 +239,11 @@ func genHead(r *Rand) *HeadIn {
 // Path 7: the error body of a node that rejects a sync committee submission.
 
 type ErrBodyIn struct {
-	Call     string   `json:"call"`     // messages | contributions
-	Server   string   `json:"server"`   // lighthouse | teku | other
-	Body     string   `json:"body"`     // nojson | badjson | failures
-	Variant  int      `json:"variant"`  // which text of that kind
-	Failures []string `json:"failures"` // null | tolerated | real
+	Call     string   `json:"call"`           // messages | contributions
+	Server   string   `json:"server"`         // lighthouse | teku | other
+	Body     string   `json:"body"`           // nojson | badjson | failures
+	Variant  int      `json:"variant"`        // which text of that kind
+	Failures []string `json:"failures"`       // null | tolerated | real
 	Omit     bool     `json:"omit,omitempty"` // the failures list is absent (only with no failures)
 	Trace    bool     `json:"trace_log,omitempty"`
 }
